@@ -287,6 +287,51 @@ _UBITS = {"u8": 8, "u16": 16, "u32": 32, "u64": 64, "u128": 128, "usize": 64,
           "i8": 7, "i16": 15, "i32": 31, "i64": 63, "i128": 127, "isize": 63}
 
 
+_ENV = [{}]       # term -> (lo, hi): what the edges dominating the site being discharged say about integer terms
+
+
+def guard_env(F, fn, pr, block):
+    """integer ranges established by the conditions that dominate `block`: `(lo..=hi).contains(&x)` and `x < c` style tests"""
+    env = {}
+    for (src, lab, dst) in fn.cfg.dominating_edges(block):
+        tt = fn.blocks[src]["term"]
+        if tt["k"] != "switch" or tt["ty"] != "bool":
+            continue
+        vals = [v for v, _ in tt["arms"]]
+        truth = I.edge_truth(None, lab, vals)
+        if truth is None:
+            continue
+        term = pr.operand(tt["on"])
+        while term[0] == "un" and term[1] == "Not":
+            term, truth = term[2], not truth
+        s_ = P.strip(term, calls=False)
+        if truth and s_[0] == "call" and s_[1].endswith("::contains") and "RangeInclusive" in s_[1] and len(s_[2]) == 2:
+            r_ = P.strip(s_[2][0], calls=False)
+            if r_[0] == "call" and r_[1].endswith("RangeInclusive::<Idx>::new") and len(r_[2]) == 2:
+                lo, hi = P.const_int(r_[2][0]), P.const_int(r_[2][1])
+                if lo is not None and hi is not None:
+                    x = P.strip(s_[2][1])
+                    o = env.get(x, (None, None))
+                    env[x] = (lo if o[0] is None else max(lo, o[0]), hi if o[1] is None else min(hi, o[1]))
+            continue
+        rel = I.norm_rel(term, truth)
+        if rel is not None:
+            op, x, y = rel
+            if P.const_int(x) is not None and P.const_int(y) is None:
+                op, x, y = I.FLIP[op], y, x
+            c = P.const_int(y)
+            if c is None:
+                continue
+            xs = P.strip(P.unwiden(P.strip(x)))
+            lo, hi = {"Lt": (None, c - 1), "Le": (None, c), "Gt": (c + 1, None), "Ge": (c, None), "Eq": (c, c)}.get(op, (None, None))
+            o = env.get(xs, (None, None))
+            env[xs] = (lo if o[0] is None else (o[0] if lo is None else max(lo, o[0])),
+                       hi if o[1] is None else (o[1] if hi is None else min(hi, o[1])))
+    # only values that cannot change between the test and the site: by-value parameters that are never reassigned
+    return {k: v for k, v in env.items() if v[0] is not None and v[1] is not None
+            and k[0] == "param" and not pr.defs.get(k[1]) and not fn.local_ty(k[1]).startswith("&")}
+
+
 def interval(F, t, depth=0):
     """(lo, hi) of an integer term built from constants, enum codes (0..max code), lossless widenings and + - * <<;
     None when any leaf is unbounded."""
@@ -295,6 +340,10 @@ def interval(F, t, depth=0):
     c = P.const_int(t)
     if c is not None:
         return (c, c)
+    if _ENV[0]:
+        g = _ENV[0].get(P.strip(t))
+        if g is not None:
+            return g
     m = enum_code_max(F, t)
     if m is not None:
         return (0, m)
@@ -452,6 +501,20 @@ def _bounded_counter(F, fn, pr, site):
 
 
 def discharge(F, cg, site, pr, ctxinfo):
+    fn = site.fn
+    _ENV[0] = {}
+    if site.kind in ("assert-bounds", "assert-overflow"):
+        try:
+            _ENV[0] = guard_env(F, fn, pr, site.block)
+        except Exception:
+            _ENV[0] = {}
+    try:
+        return _discharge(F, cg, site, pr, ctxinfo)
+    finally:
+        _ENV[0] = {}
+
+
+def _discharge(F, cg, site, pr, ctxinfo):
     fn = site.fn
     if site.kind == "assert-bounds":
         n = P.const_int(site.info["len"])
